@@ -899,7 +899,8 @@ def do_observe(p, keep):
             sched = call.get("scheduler") or "synchronous"
             import dask
 
-            with dask.config.set(scheduler=sched, **({"num_workers": 3} if sched == "threads" else {})):
+            with dask.config.set(scheduler=sched, **({"num_workers": 3} if sched == "threads" else
+                                                     {"num_workers": 2} if sched == "processes" else {})):
                 dt = pyxel.run_mode(mode=obs, detector=det, pipeline=pipe, with_inherited_coords=True)
                 da = _pixel_da(dt).compute()
             rec["dims"] = [str(d) for d in da.dims]
